@@ -1415,7 +1415,8 @@ class TransferManager(BaseManager):
                     reason = FailReason.CANCELLED
                 elif current_state == TransferState.COMPLETE:
                     reason = FailReason.COMPLETE
-                elif transfer.is_processing():
+                elif transfer.is_processing() or (
+                        transfer._transfer_task is not None and not transfer._transfer_task.done()):
                     # Needs investigation, currently don't do anything when the
                     # transfer is already being processed
                     return
